@@ -271,6 +271,7 @@ fn env_for(r: &mut Prng, hostile: bool) -> Env {
         entropy_seed: 1 + (r.next_u64() >> 20),
         clock_seed: r.next_u64() >> 20,
         context: *r.pick(&[Context::External, Context::InWorker]),
+        cpus: *r.pick(&[1usize, 1, 2]),
         replay: None,
     }
 }
